@@ -116,6 +116,16 @@ def lru_space(tier):
                     # prediction purges what the model knows to be past its deadline)
                     k2 = dict(kw, A=2, D=kw["D"] - (0 if w == 0 else 1), **ex)
                     out.append(seqjob(name("lru", k2), **k2))
+    # the concurrent cache WITHOUT maintenance after every op: whole maintenance passes
+    # over several queued reads and writes, predicted from the queues they find
+    # (housekeeping regime "beyond": only sync() runs a pass)
+    for cap, w, h in itertools.product([1, 2, 3], [0, 1], ["spread", "collide"]):
+        if w == 0:
+            d, q = (8, 4) if thorough else (7, 4)
+        else:
+            d, q = (7, 3) if thorough else (6, 3)
+        kw = dict(kind="S", cap=cap, w=w, hash=h, alpha="lru", lru=1, keys=3, D=d, A=0, Q=q, autosync=0, beyond=1, tick=1000)
+        out.append(seqjob(name("lrubatch", kw), **kw))
     return out
 
 
@@ -306,6 +316,11 @@ def jobs_for(prop, tier):
         j = sched("c02", tier, b, 16) + sched("c02w", tier, b, 8) + sched("c02x", tier, b, 4) + sched("c02t", tier, b, 8) + sched("c07", tier, b, 2) + sched("c16", tier, b, 2) + loom + gen
     elif prop == "C09":
         j = sched("c09", tier, 2 if thorough else 1, 8, 20000) + sched("c02", tier, 2, 16) + sched("c07", tier, 2, 2) + gen
+        # a single thread under the single-thread scheduler (E1): a lock the caller holds
+        # itself, a retry loop waiting for nobody, an unbounded loop inside one call are
+        # violations instead of hangs; every call sequence of the C01 space (sync cache)
+        j = j + c01_space(tier, kinds=("S",), caps=["none", 1], weighers=(0,), with_collide=False, prefix="c09",
+                          dS=7 if thorough else 5, a=2)
     elif prop == "C07":
         j = j + sched("c07", tier, b, 4) + sched("c02x", tier, b, 4) + loom + gen
     elif prop == "C16":
